@@ -85,6 +85,19 @@ def clause_a(ctx, P):
             seq.append(("rdata", "rdata"))
     want = [("name", "name"), ("u16", "ty"), ("u16", "class"), ("u32", "ttl"), ("u16", "rdlen"), ("rdata", "rdata")]
     ctx.ob("C02a.F3.rr-fixed-part-writer", wr.name, seq == want, wr.loc(), "write_record emits %s" % seq)
+    # the owner name of a record is the one it currently goes by: DnsRecord::get_name() (new_name after a conflict
+    # rename, else entry.name) — never the entry's name field read directly
+    names = [(b, wr.term(b)) for b in order if method(cname(wr.term(b))) == "write_name" and cname(wr.term(b)).startswith("dns_parser::DnsOutPacket::")]
+    okn = bool(names)
+    detn = ""
+    for (b, t) in names:
+        e = wrt.operand(t["args"][1], endpos(wr, b))
+        via = has_call(e, "DnsRecord::get_name")
+        raw = any(x[0] == "field" and x[2] == "name" and (x[3] or "").endswith("DnsEntry") for x in walk(e))
+        if not via or raw:
+            okn = False
+        detn = show(e)[:80]
+    ctx.ob("C02a.F3.owner-name-is-current-name", wr.name, okn, wr.loc(), "write_record writes the owner name obtained from DnsRecord::get_name(): %s" % detn)
     rr = P.one("DnsIncoming::read_rr_records")
     rrt = tracer(P, rr)
     reads = {}
